@@ -1436,9 +1436,26 @@ func (v *Verifier) evalElem(fr *Frame, st *State, e ast.Expr, sh *Shape) Val {
 }
 
 func (v *Verifier) freshRef(st *State) *Term {
-	// fresh refs are distinct positive constants; pre-existing (input) refs are <= 0.
-	v.allocCount++
-	return v.eng.C.Inti(int64(v.allocCount))
+	// Allocation watermark: every reference allocated so far on this path is in (0, st.alloc);
+	// pre-existing (input) references are <= 0. A new object gets the watermark itself, which is
+	// therefore distinct from every existing reference, including ones held in havocked variables
+	// that an invariant describes as fresh(...).
+	if st.alloc == nil {
+		st.alloc = v.eng.C.Inti(1)
+	}
+	r := st.alloc
+	st.alloc = v.eng.C.IAdd(st.alloc, v.eng.C.Inti(1))
+	if st.log != nil {
+		st.log.allocs = true
+	}
+	return r
+}
+
+func (v *Verifier) allocMark(st *State) *Term {
+	if st.alloc == nil {
+		st.alloc = v.eng.C.Inti(1)
+	}
+	return st.alloc
 }
 
 func (v *Verifier) String() string { return fmt.Sprintf("verifier(%s)", v.curFn) }
